@@ -328,7 +328,15 @@ class Kinds:
                     core = core[1]
                 if not ok and base[2] == "idx_nodes" and k[0] == "NodeIdx" and core[0] == "iter" and core[1][0] == "call" \
                         and core[1][1] == ("builtin", "range") and len(core[1][2]) == 1:
-                    ok = True  # a counter over range(n_nodes) enumerates the positions of the conquest order just as well
+                    # a counter over range(n_nodes) enumerates the positions of the conquest order just as well - when it is
+                    # used as a position only (never also as a node number: nodes[j], H.cost[j], ...)
+                    as_node = False
+                    for e2 in self.w.events:
+                        for top in [x for x in (e2.target, e2.value) if x is not None] + list(e2.args or ()) + [g for g, _ in e2.guards]:
+                            for u in subterms(top):
+                                if u[0] == "idx" and u[2] == core and u[1][0] == "attr" and u[1][2] in ("nodes", "cost", "color", "pos", "p"):
+                                    as_node = True
+                    ok = not as_node
                 report("K1", ev, show(t), ok,
                        "" if ok else f"position '{show(ix)}' of kind {kshow(k)} used as an ordinal position")
                 return
